@@ -212,7 +212,11 @@ func GenOp(t *rapid.T, w *World, p *Profile) Op {
 		if hi >= w.Latest {
 			hi = w.Latest - 1
 		}
-		lo := w.First - 1
+		// also targets below the oldest retained version (repeated / late requests): must be a no-op
+		lo := w.First - 3
+		if lo < 0 {
+			lo = 0
+		}
 		if hi < lo {
 			hi = lo
 		}
